@@ -362,7 +362,15 @@ def run_session_spec(spec):
         out["inconclusive"] = f"harness error: {type(e).__name__}: {e}"
         out["traceback"] = traceback.format_exc()
     out["wall_s"] = round(time.time() - t0, 3)
-    return out
+    return json.loads(json.dumps(_strkeys(out), default=str))
+
+
+def _strkeys(x):
+    if isinstance(x, dict):
+        return {(k if isinstance(k, (str, int, float, bool)) or k is None else repr(k)): _strkeys(v) for k, v in x.items()}
+    if isinstance(x, (list, tuple)):
+        return [_strkeys(v) for v in x]
+    return x
 
 
 def run_sessions(specs, workers=None):
@@ -398,6 +406,12 @@ class Report:
         self.inconclusive = None
         self.functions = {}
         self.nviol = 0
+        import glob
+        for old in glob.glob(os.path.join(REPLAY_DIR, f"{pid}-*.json")):
+            try:
+                os.unlink(old)
+            except OSError:
+                pass
 
     def add_results(self, results, describe=None):
         """fold worker outputs in; sat results become violations (after the native replay check)"""
